@@ -1,0 +1,249 @@
+//go:build verif
+
+package fileops
+
+// Verification hook (build tag "verif"): a recorder around the local VFS. It counts
+// every file-system mutation whose path contains one of the configured substrings and
+// can kill the process immediately BEFORE the k-th such mutation (optionally after
+// writing only the first r bytes of that write: a torn tail). Nothing here changes what
+// the wrapped VFS does.
+//
+// Environment: VERIF_FS=1 enables the wrapper; VERIF_FS_MATCH=sub1,sub2 path filter
+// (default: everything); VERIF_FS_TRACE=<file> appends one line per mutation;
+// VERIF_FS_ARM=k[,torn] arms from process start; VERIF_FS_DIELOG=<file> receives one
+// line describing the mutation the process died in front of.
+
+import (
+	"fmt"
+	"os"
+	"strconv"
+	"strings"
+	"sync"
+	"sync/atomic"
+	"syscall"
+)
+
+var (
+	verifFSOn     bool
+	verifMatch    []string
+	verifCount    int64
+	verifArmAt    int64 // absolute count at which to die; 0 = not armed
+	verifTorn     int64
+	verifTraceMu  sync.Mutex
+	verifTraceF   *os.File
+	verifDieLog   string
+	verifDieMu    sync.Mutex
+)
+
+func init() {
+	if os.Getenv("VERIF_FS") == "" {
+		return
+	}
+	verifFSOn = true
+	if m := os.Getenv("VERIF_FS_MATCH"); m != "" {
+		verifMatch = strings.Split(m, ",")
+	}
+	if t := os.Getenv("VERIF_FS_TRACE"); t != "" {
+		verifTraceF, _ = os.OpenFile(t, os.O_CREATE|os.O_WRONLY|os.O_APPEND, 0o644)
+	}
+	verifDieLog = os.Getenv("VERIF_FS_DIELOG")
+	if a := os.Getenv("VERIF_FS_ARM"); a != "" {
+		parts := strings.Split(a, ",")
+		k, _ := strconv.ParseInt(parts[0], 10, 64)
+		var torn int64
+		if len(parts) > 1 {
+			torn, _ = strconv.ParseInt(parts[1], 10, 64)
+		}
+		VerifArm(k, torn)
+	}
+	localFS = &verifVFS{VFS: localFS}
+}
+
+// VerifEnabled reports whether the recorder wraps the local VFS.
+func VerifEnabled() bool { return verifFSOn }
+
+// VerifCount returns the number of matching mutations seen so far.
+func VerifCount() int64 { return atomic.LoadInt64(&verifCount) }
+
+// VerifArm makes the process die before the k-th matching mutation counted from now
+// (k >= 1). torn > 0: if that mutation is a write of more than torn bytes, the first
+// torn bytes are written before dying. k <= 0 disarms.
+func VerifArm(k, torn int64) {
+	if k <= 0 {
+		atomic.StoreInt64(&verifArmAt, 0)
+		return
+	}
+	atomic.StoreInt64(&verifTorn, torn)
+	atomic.StoreInt64(&verifArmAt, atomic.LoadInt64(&verifCount)+k)
+}
+
+func verifMatches(path string) bool {
+	if len(verifMatch) == 0 {
+		return true
+	}
+	for _, m := range verifMatch {
+		if strings.Contains(path, m) {
+			return true
+		}
+	}
+	return false
+}
+
+// verifMutation is called before the mutation is executed. It returns the number of
+// bytes of a write that should be written before dying (only meaningful when die).
+func verifMutation(kind, path string, size int) (die bool, torn int64) {
+	if !verifMatches(path) {
+		return false, 0
+	}
+	n := atomic.AddInt64(&verifCount, 1)
+	if verifTraceF != nil {
+		verifTraceMu.Lock()
+		fmt.Fprintf(verifTraceF, "%d %s %s %d\n", n, kind, path, size)
+		verifTraceMu.Unlock()
+	}
+	at := atomic.LoadInt64(&verifArmAt)
+	if at != 0 && n >= at {
+		// exactly one goroutine gets to die; later ones block for ever so that no
+		// further mutation can slip through while the signal is being delivered
+		verifDieMu.Lock()
+		t := atomic.LoadInt64(&verifTorn)
+		if kind != "write" || t <= 0 || int64(size) <= t {
+			t = 0
+		}
+		if verifDieLog != "" {
+			_ = os.WriteFile(verifDieLog, []byte(fmt.Sprintf("%d %s %s %d torn=%d\n", n, kind, path, size, t)), 0o644)
+		}
+		if t > 0 {
+			return true, t
+		}
+		verifDie()
+	}
+	return false, 0
+}
+
+func verifDie() {
+	_ = syscall.Kill(os.Getpid(), syscall.SIGKILL)
+	select {}
+}
+
+type verifVFS struct {
+	VFS
+}
+
+func (v *verifVFS) wrap(f File, err error) (File, error) {
+	if err != nil || f == nil {
+		return f, err
+	}
+	return &verifFile{File: f, path: f.Name()}, nil
+}
+
+func (v *verifVFS) Open(name string, opt ...FSOption) (File, error) {
+	return v.VFS.Open(name, opt...)
+}
+
+func (v *verifVFS) OpenFile(name string, flag int, perm os.FileMode, opt ...FSOption) (File, error) {
+	if flag&(os.O_WRONLY|os.O_RDWR|os.O_CREATE|os.O_TRUNC|os.O_APPEND) == 0 {
+		return v.VFS.OpenFile(name, flag, perm, opt...)
+	}
+	if flag&(os.O_CREATE|os.O_TRUNC) != 0 {
+		verifMutation("openw", name, 0)
+	}
+	return v.wrap(v.VFS.OpenFile(name, flag, perm, opt...))
+}
+
+func (v *verifVFS) Create(name string, opt ...FSOption) (File, error) {
+	verifMutation("create", name, 0)
+	return v.wrap(v.VFS.Create(name, opt...))
+}
+
+func (v *verifVFS) CreateV1(name string, opt ...FSOption) (File, error) {
+	verifMutation("create", name, 0)
+	return v.wrap(v.VFS.CreateV1(name, opt...))
+}
+
+func (v *verifVFS) CreateV2(name string, opt ...FSOption) (File, error) {
+	verifMutation("create", name, 0)
+	return v.wrap(v.VFS.CreateV2(name, opt...))
+}
+
+func (v *verifVFS) Remove(name string, opt ...FSOption) error {
+	verifMutation("remove", name, 0)
+	return v.VFS.Remove(name, opt...)
+}
+
+func (v *verifVFS) RemoveLocal(name string, opt ...FSOption) error {
+	verifMutation("remove", name, 0)
+	return v.VFS.RemoveLocal(name, opt...)
+}
+
+func (v *verifVFS) RemoveAll(path string, opt ...FSOption) error {
+	verifMutation("removeall", path, 0)
+	return v.VFS.RemoveAll(path, opt...)
+}
+
+func (v *verifVFS) RemoveAllWithOutDir(path string, opt ...FSOption) error {
+	verifMutation("removeall", path, 0)
+	return v.VFS.RemoveAllWithOutDir(path, opt...)
+}
+
+func (v *verifVFS) Mkdir(path string, perm os.FileMode, opt ...FSOption) error {
+	verifMutation("mkdir", path, 0)
+	return v.VFS.Mkdir(path, perm, opt...)
+}
+
+func (v *verifVFS) MkdirAll(path string, perm os.FileMode, opt ...FSOption) error {
+	if _, err := os.Stat(path); err == nil {
+		return v.VFS.MkdirAll(path, perm, opt...) // nothing to create: not a mutation
+	}
+	verifMutation("mkdir", path, 0)
+	return v.VFS.MkdirAll(path, perm, opt...)
+}
+
+func (v *verifVFS) RenameFile(oldPath, newPath string, opt ...FSOption) error {
+	verifMutation("rename", oldPath+"->"+newPath, 0)
+	return v.VFS.RenameFile(oldPath, newPath, opt...)
+}
+
+func (v *verifVFS) WriteFile(filename string, data []byte, perm os.FileMode, opt ...FSOption) error {
+	verifMutation("writefile", filename, len(data))
+	return v.VFS.WriteFile(filename, data, perm, opt...)
+}
+
+func (v *verifVFS) CopyFile(srcFile, dstFile string, opt ...FSOption) (int64, error) {
+	verifMutation("copy", srcFile+"->"+dstFile, 0)
+	return v.VFS.CopyFile(srcFile, dstFile, opt...)
+}
+
+func (v *verifVFS) Truncate(name string, size int64, opt ...FSOption) error {
+	verifMutation("truncate", name, int(size))
+	return v.VFS.Truncate(name, size, opt...)
+}
+
+type verifFile struct {
+	File
+	path string
+}
+
+func (f *verifFile) Write(b []byte) (int, error) {
+	die, torn := verifMutation("write", f.path, len(b))
+	if die {
+		_, _ = f.File.Write(b[:torn])
+		verifDie()
+	}
+	return f.File.Write(b)
+}
+
+func (f *verifFile) Truncate(size int64) error {
+	verifMutation("truncate", f.path, int(size))
+	return f.File.Truncate(size)
+}
+
+func (f *verifFile) Sync() error {
+	verifMutation("sync", f.path, 0)
+	return f.File.Sync()
+}
+
+func (f *verifFile) SyncUpdateLength() error {
+	verifMutation("sync", f.path, 0)
+	return f.File.SyncUpdateLength()
+}
